@@ -22,7 +22,7 @@ import tempfile
 import numpy as np
 
 from ..core import Machinery, SPEC, VERIF, run_tlc, close
-from .. import fx_docs, fx_factory as FX
+from .. import fx_docs, fx_factory as FX, fx_mixins as MX
 
 PY = sys.executable
 
@@ -76,13 +76,13 @@ def vec_cls(v):
     return '%s:%s:%s' % (v['kind'], v['sel'], v['variant'])
 
 
-def run_workers(vectors, resolve, seeds):
+def run_workers(vectors, resolve, seeds, mix=None):
     """Run the configurations in one subprocess per hash seed; returns {seed: result dict}."""
     tmp = tempfile.mkdtemp(prefix='c15job_')
     try:
         inp = os.path.join(tmp, 'in.json')
         with open(inp, 'w') as f:
-            json.dump(dict(vectors=vectors, resolve=resolve), f)
+            json.dump(dict(vectors=vectors, resolve=resolve, mix=mix or []), f)
         procs = {}
         for s in seeds:
             env = dict(os.environ, PYTHONHASHSEED=str(s))
@@ -153,6 +153,69 @@ def judge_vector(ctx, v, r, seed, defaults):
     bad = [k for k in others if not default_matches(dflt[k], rec[k])]
     ctx.verdict('DefaultsOtherwise', not bad, cls=cls, detail='keys not set in the file differ from the constructor defaults: %s' % (
         {k: rec[k] for k in bad}), vector=vec)
+
+
+# ---------------------------------------------------------------------------- composite selectors with several mixins
+def _jmap(x):
+    return x if isinstance(x, dict) else {}
+
+
+def mix_cls(v):
+    return 'mix:%s:%s:k%d' % (v['kind'], v['variant'], v['nmix'])
+
+
+def judge_mix(ctx, v, r, seed):
+    """One exported FactoryMix configuration against what the parser built (and what enhance_class builds)."""
+    cls = mix_cls(v)
+    vec = dict(v, hashseed=seed, mix=True)
+    sel = '+'.join(v['toks'])
+    if v['variant'] in ('basefirst', 'twobases', 'unknownmixin'):
+        ctx.verdict('InvalidCompositeIsError', r['err'] != 'none', cls=cls,
+                    detail='selector %r (documented as not valid) was accepted and built %s' % (sel, r.get('cls')), vector=vec)
+        return
+    if v['variant'] == 'unknownkey':
+        ctx.verdict('UnknownKeyIsError', r['err'] != 'none', cls=cls,
+                    detail='unknown key not_a_key under %r was ignored: built %s' % (sel, r.get('cls')), vector=vec)
+        return
+    lib = r.get('lib')
+    if r['err'] != 'none':
+        if lib is None or lib['err'] == 'none':
+            ctx.verdict('WellFormedFileBuilds', False, cls=cls, detail='%r: library construction succeeds but the input file raised %s: %s' % (
+                sel, r['err'], r.get('msg')), vector=vec)
+        return
+    want = list(v['bases'])
+    ctx.verdict('CompositeOrder', r['bases'] == want and [c for c in r['mro'] if c in want] == want, cls=cls,
+                detail='%r built bases %s (method resolution %s); specification: ordered application %s' % (
+                    sel, r['bases'], [c for c in r['mro'] if c in want], want), vector=vec)
+    inits = [c for c, _ in r['inits']]
+    ctx.verdict('MixinInitOrder', inits == list(v['initorder']), cls=cls,
+                detail='%r: mixins initialised in order %s, specification (evaluated in reverse) %s' % (sel, inits, v['initorder']), vector=vec)
+    recs = {c: kw for c, kw in r['inits']}
+    recs.update({c: kw for c, kw in r['baserec']})
+    for owner, d in _jmap(v['kwargs']).items():
+        for k, tv in _jmap(d).items():
+            got = recs.get(owner, {}).get(k)
+            ok = got is not None and typed_matches(tv, got, v['kind'], k, {'@P1': (SUFFIX.get((v['kind'], k), '%s') % 1),
+                                                                          '@P2': (SUFFIX.get((v['kind'], k), '%s') % 2)})
+            ctx.verdict('KeysReachCtor', ok, cls=cls + ':' + k, detail='%r key %s: %s received %r, specification %r' % (sel, k, owner, got, tv), vector=vec)
+    M, A = [c[0] / c[1] for c in v['coef']]
+    eff = r['effect']
+    x0 = 1000.0
+    if any(c.startswith('Verif') for c in want):        # the probe method exists iff a plugin mixin takes part
+        ok = 'apply' in eff and close(eff['apply'][0], M * x0 + A, rel=1e-12) and close(eff['apply'][1], A, rel=1e-12, abs_=1e-12)
+        ctx.verdict('CompositeEffect', ok, cls=cls, detail='%r: the method chain maps %s -> %s and 0 -> %s; specification (first mixin applied last) %s and %s' % (
+            sel, x0, eff.get('apply', [None])[0], eff.get('apply', [None, None])[1], M * x0 + A, A), vector=vec)
+    if v['kind'] == 'temperature' and r.get('base_effect', {}).get('profile') is not None and 'profile' in eff:
+        M, A = [c[0] / c[1] for c in v['pcoef']]
+        bp = np.array(r['base_effect']['profile'])
+        got = np.array(eff['profile'])
+        ok = got.shape == bp.shape and np.allclose(got, M * bp + A, rtol=1e-12, atol=0)
+        ctx.verdict('CompositeEffect', ok, cls=cls + ':profile', detail='%r: temperature %s K; %s applied to the plain %s profile %s K gives %s K' % (
+            sel, got[:2], '+'.join(v['toks'][:-1]), v['basecls'], bp[:2], (M * bp + A)[:2]), vector=vec)
+    if lib is not None and lib['err'] == 'none':
+        ok = lib['bases'] == r['bases'] and lib['mro'][1:] == r['mro'][1:] and lib['inits'] == inits and lib['effect'] == eff
+        ctx.verdict('FileEqualsLibrary', ok, cls=cls, detail='%r: input file built bases %s / effect %s; enhance_class(%s, %s) gives bases %s / effect %s' % (
+            sel, r['bases'], eff, v['basecls'], want[:-1], lib['bases'], lib['effect']), vector=vec)
 
 
 # ---------------------------------------------------------------------------- observation / instrument / priors / custom
@@ -406,13 +469,16 @@ def run(ctx):
     skipped = [(e['kind'], e['sels'], e['status']) for e in entries if e['status'] not in ('builtin', 'custom')]
     ctx.note('documented selectors outside the quantifier (no implementation in this tree / third-party sampler not installed): %s' % skipped)
     ctx.bounds = dict(tier=ctx.tier, max_keys_per_config=2 if q else 3, values_per_key=2,
-                      variants='plain, capitalised selector, unknown key, unknown selector, documented mixin composite, custom file',
+                      variants='plain, capitalised selector, unknown key, unknown selector, documented mixin composite, custom file; '
+                               'composites of 1..3 mixins (3 plugin mixins per kind + built-in) in every order x 2-3 bases per kind, '
+                               'with base-first / two-bases / unknown-mixin / unknown-key variants',
                       hash_seeds=[1, 2] if q else [1, 2, 3, 4])
     ctx.assumptions = ['the committed table harness/data/documented_keywords.json is the documentation (extractor: harness/fx_docs.py)',
                        'constructor arguments are observed by signature-preserving wrappers installed from outside the repository',
                        'a configuration is well-formed for a component iff the library constructor accepts the typed values directly',
                        'TLC + CommunityModules Json']
-    sd = make_spec_dir(FX.gen_reg_module(reg, mix, entries, doc))
+    mixextra = MX.gen_mix_constants(mix, MX.choose_bases(reg, entries, rot=ctx.seed, per_kind=2 if q else 3))
+    sd = make_spec_dir(FX.gen_reg_module(reg, mix, entries, doc, extra=mixextra))
     tmp = tempfile.mkdtemp(prefix='c15_')
     try:
         # 1. resolution table of every documented selector, decided on the generated registry
@@ -442,7 +508,7 @@ def run(ctx):
                 if miss:
                     waived_keys.add(cls + ':' + k['name'])
         shutil.rmtree(sd, ignore_errors=True)
-        sd = make_spec_dir(FX.gen_reg_module(reg, mix, entries, doc, waived=waived, waived_keys=waived_keys))
+        sd = make_spec_dir(FX.gen_reg_module(reg, mix, entries, doc, waived=waived, waived_keys=waived_keys, extra=mixextra))
         # 2. every configuration, design level
         r = run_tlc('MC_Factory', 'MC_Factory_%s.cfg' % ctx.tier, spec_dir=sd, coverage=True)
         ctx.add_tlc('exhaustive', r)
@@ -459,7 +525,7 @@ def run(ctx):
                   [c for c in reg if c['kind'] == row['kind'] and c['name'] != row['cands'][0]] and row['kind'] != 'prior'][0]
         other = [c for c in bad if c['kind'] == victim['kind'] and c['name'] != victim['cands'][0]][0]
         other['kw'] = sorted(other['kw'] + [victim['sel'].lower() if victim['kind'] != 'contribution' else victim['sel']])
-        sd2 = make_spec_dir(FX.gen_reg_module(bad, mix, entries, doc, waived=waived, waived_keys=waived_keys))
+        sd2 = make_spec_dir(FX.gen_reg_module(bad, mix, entries, doc, waived=waived, waived_keys=waived_keys, extra=mixextra))
         try:
             try:
                 run_tlc('MC_Factory', 'MC_Factory_res.cfg', spec_dir=sd2, workers=1)
@@ -471,6 +537,17 @@ def run(ctx):
                 raise Machinery('non-vacuity: a keyword shared by two classes was not refuted by UniqueResolution')
         finally:
             shutil.rmtree(sd2, ignore_errors=True)
+        # 3b. composite selectors with SEVERAL mixins: ordered application (FactoryMix)
+        mr = ctx.check_spec('mixin-composites', 'FactoryMix', 'MC_FactoryMix_%s.cfg' % ctx.tier, spec_dir=sd,
+                            need_actions=('Split', 'ResolveMixin', 'Build'))
+        ctx.expect_refuted('mixin-order-irrelevant', 'FactoryMix', 'MC_FactoryMix_orderirrelevant_refuted.cfg', 'OrderIrrelevant', spec_dir=sd)
+        mx = tlc(ctx, 'export-mixin-composites', 'FactoryMix', 'EX_FactoryMix_%s.cfg' % ctx.tier, sd, counts=False, workers=1)
+        mixvecs = mx.tagged('MIX')
+        if not [m for m in mixvecs if m['variant'] == 'plain' and m['nmix'] >= 2 and m['err'] == 'none']:
+            raise Machinery('no composite configuration with two or more mixins exported')
+        for m in mixvecs:
+            m['given'] = _jmap(m['given'])
+            m['written'] = '+'.join(m['toks'])
         # 4. binding A: exported configurations through the parser under several hash seeds
         ex = tlc(ctx, 'export', 'MC_Factory', 'EX_Factory_%s.cfg' % ctx.tier, sd, counts=False, workers=1)
         vecs = ex.tagged('VEC')
@@ -489,7 +566,7 @@ def run(ctx):
         resolve = sorted({(row['kind'], row['sel']) for row in table[0] if row['kind'] in
                           ('temperature', 'pressure', 'chemistry', 'gas', 'star', 'planet', 'model', 'optimizer', 'instrument')})
         seeds = ctx.bounds['hash_seeds']
-        out = run_workers(vecs, [list(x) for x in resolve], seeds)
+        out = run_workers(vecs, [list(x) for x in resolve], seeds, mix=mixvecs)
         defaults = class_defaults()
         orders = set()
         for s in seeds:
@@ -505,7 +582,12 @@ def run(ctx):
                     judge_custom(ctx, v, r, s)
                 else:
                     judge_vector(ctx, v, r, s, defaults)
-            ctx.traces += len(vecs)
+            if len(o.get('mixresults', [])) != len(mixvecs):
+                raise Machinery('worker returned %d composite results for %d configurations' % (len(o.get('mixresults', [])), len(mixvecs)))
+            for v, r in zip(mixvecs, o['mixresults']):
+                judge_mix(ctx, v, r, s)
+            ctx.traces += len(vecs) + len(mixvecs)
+        ctx.note('%d composite configurations with 1..3 mixins (plugin mixins registered through ClassFactory.load_plugin) x %d hash seeds' % (len(mixvecs), len(seeds)))
         ctx.note('%d configurations x %d hash seeds; %d distinct class-set iteration orders observed' % (len(vecs), len(seeds), len(orders)))
         nill = sum(1 for r in out[seeds[0]]['results'] if r['direct'] not in ('ok', None))
         ctx.note('%d configurations are ill-formed for their component (library constructor rejects the typed values); only argument delivery is compared there' % nill)
@@ -575,6 +657,10 @@ def replay(ctx, violations):
                 cf = ClassFactory()
                 classes = {k.__name__: k for attr in FX.KIND_ATTR.values() for k in getattr(cf, attr)}
                 run_assemblies(ctx, [v], tmp, classes)
+            elif v.get('mix'):
+                s = v.get('hashseed', 1)
+                out = run_workers([], [], [s], mix=[v])
+                judge_mix(ctx, v, out[s]['mixresults'][0], s)
             elif 'variant' in v and 'given' in v:
                 s = v.get('hashseed', 1)
                 out = run_workers([v], [], [s])
